@@ -134,6 +134,7 @@ type Signer struct {
 	NowMs   int64  `json:"now,omitempty"`   // clock of the harness timer given to shaInt/hmacInt
 	TNonce  Blob   `json:"tn,omitzero"`     // nonce the harness timer hands out
 	ExpireS int64  `json:"exp,omitempty"`   // certificate lifetime in seconds (ForCert)
+	Curve   string `json:"curve,omitempty"` // ecdsa: "" = P-256, "p224", "p384", "p521"
 }
 
 // Pkt is one Interest or Data as plain data.
@@ -184,7 +185,17 @@ var (
 	keyOnce sync.Once
 	eccKey  *ecdsa.PrivateKey
 	rsaKey  *rsa.PrivateKey
+	eccMore = map[string]*ecdsa.PrivateKey{} // other curves: p224, p384, p521
 )
+
+// eccFor returns the process-wide ECDSA key on the named curve ("" = P-256).
+func eccFor(curve string) *ecdsa.PrivateKey {
+	k, _ := keys()
+	if curve == "" {
+		return k
+	}
+	return eccMore[curve]
+}
 
 // asymmetric keys are generated once per process (the oracle never depends on their value)
 func keys() (*ecdsa.PrivateKey, *rsa.PrivateKey) {
@@ -195,6 +206,11 @@ func keys() (*ecdsa.PrivateKey, *rsa.PrivateKey) {
 		}
 		if rsaKey, err = rsa.GenerateKey(rand.Reader, 2048); err != nil {
 			panic(err)
+		}
+		for name, c := range map[string]elliptic.Curve{"p224": elliptic.P224(), "p384": elliptic.P384(), "p521": elliptic.P521()} {
+			if eccMore[name], err = ecdsa.GenerateKey(c, rand.Reader); err != nil {
+				panic(err)
+			}
 		}
 	})
 	return eccKey, rsaKey
@@ -263,8 +279,7 @@ func (s Signer) build() *recSigner {
 	case "hmacInt":
 		in = sec.NewHmacIntSigner(s.Key.bytes(), tm)
 	case "ecdsa":
-		k, _ := keys()
-		in = sec.NewEccSigner(s.ForCert, s.ForInt, exp, k, s.keyName())
+		in = sec.NewEccSigner(s.ForCert, s.ForInt, exp, eccFor(s.Curve), s.keyName())
 	case "rsa":
 		_, k := keys()
 		in = sec.NewRsaSigner(s.ForCert, s.ForInt, exp, k, s.keyName())
@@ -282,8 +297,7 @@ func (s Signer) validate(covered enc.Wire, sig ndn.Signature) bool {
 	case "hmac", "hmacInt":
 		return sec.HmacValidate(covered, sig, s.Key.bytes())
 	case "ecdsa":
-		k, _ := keys()
-		return sec.EcdsaValidate(covered, sig, &k.PublicKey)
+		return sec.EcdsaValidate(covered, sig, &eccFor(s.Curve).PublicKey)
 	case "rsa":
 		_, k := keys()
 		return sec.RsaValidate(covered, sig, &k.PublicKey)
@@ -425,6 +439,21 @@ func (p Pkt) make() (b *built, err error) {
 	}
 	b.nEncBufs = len(b.wire)
 	b.joined = append([]byte(nil), b.wire.Join()...)
+	if b.rec != nil {
+		// ... and the packet just built must not depend on what the signer does next: sign two
+		// more packets with the same object and look at the first again (seeded defect C12-r3-1:
+		// a signer that returns a slice of its own scratch buffer as the signature value, which
+		// the encoder places in the wire without copying).
+		warmUp(p.Kind, b.rec.inner)
+		warmUp(map[string]string{"I": "D", "D": "I"}[p.Kind], b.rec.inner)
+		if now := b.wire.Join(); !bytes.Equal(now, b.joined) {
+			i := 0
+			for i < len(now) && i < len(b.joined) && now[i] == b.joined[i] {
+				i++
+			}
+			return b, fmt.Errorf("the encoded packet changed (first at byte %d of %d) after the same signer object signed other packets: the packet shares memory with the signer", i, len(b.joined))
+		}
+	}
 	return b, nil
 }
 
@@ -911,7 +940,12 @@ func refDecode(buf []byte) (*refPacket, error) {
 // signedPortion computes, from the packet format alone, the bytes a signature must cover:
 // Data: Name through SignatureInfo; Interest: the name components except the
 // parameters-digest component, then ApplicationParameters through InterestSignatureInfo.
-func (rp *refPacket) signedPortion(buf []byte) []byte {
+//
+// The packet format allows one parameters-digest component per name. A name that embeds
+// another parameterised Interest's name carries two; then "except the digest component" has
+// two readings -- all of them (everyDigest), or only this Interest's own, which the encoder
+// appends last -- and the checks accept either as long as signer and parser agree.
+func (rp *refPacket) signedPortion(buf []byte, everyDigest bool) []byte {
 	if rp.sigValueN == nil {
 		return nil
 	}
@@ -919,12 +953,25 @@ func (rp *refPacket) signedPortion(buf []byte) []byte {
 		return buf[rp.nameNode.Off:rp.sigValueN.Off]
 	}
 	var out []byte
-	for _, c := range rp.nameNode.Children {
-		if c.Type != tw.TParamsDigest {
-			out = append(out, c.Bytes(buf)...)
+	kids := rp.nameNode.Children
+	for i, c := range kids {
+		if c.Type == tw.TParamsDigest && (everyDigest || i == len(kids)-1) {
+			continue
 		}
+		out = append(out, c.Bytes(buf)...)
 	}
 	return append(out, buf[rp.paramsN.Off:rp.sigValueN.Off]...)
+}
+
+// digestCount is the number of parameters-digest components in the name.
+func (rp *refPacket) digestCount() int {
+	n := 0
+	for _, c := range rp.nameNode.Children {
+		if c.Type == tw.TParamsDigest {
+			n++
+		}
+	}
+	return n
 }
 
 // ---------------------------------------------------------------------------- views of what the API decodes
@@ -1289,6 +1336,9 @@ func genSigner(t *rapid.T, kind string) Signer {
 			s.ExpireS = rapid.SampledFrom([]int64{0, 1, 3600, 86400 * 365}).Draw(t, "expire")
 		}
 	}
+	if s.Kind == "ecdsa" {
+		s.Curve = rapid.SampledFrom([]string{"", "", "", "p224", "p384", "p521"}).Draw(t, "curve")
+	}
 	if s.Kind == "ecdsa" || s.Kind == "rsa" {
 		if kind == "I" {
 			s.ForInt = rapid.IntRange(0, 5).Draw(t, "forInt") > 0
@@ -1361,6 +1411,14 @@ func genPkt(t *rapid.T, allowHuge bool) Pkt {
 	if p.Kind == "I" && p.Sig.Kind != "" && p.Params == nil && rapid.IntRange(0, 9).Draw(t, "signedNeedsParams") > 0 {
 		p.Params = genBlobs(t, false) // a signed Interest must carry (possibly empty) parameters
 		p.Name = stripMidDigest(p.Name)
+	}
+	if p.Kind == "I" && p.Params != nil && len(p.Name) >= 2 && rapid.IntRange(0, 7).Draw(t, "embeddedDigest") == 0 {
+		// a name that embeds another parameterised Interest's name, digest component included
+		// (a relay / encapsulation pattern): the encoder appends this Interest's own digest as
+		// the last component, and signer and parser must agree on where the signed name ends
+		i := rapid.IntRange(0, len(p.Name)-2).Draw(t, "embeddedAt")
+		p.Name = append(Name(nil), p.Name...)
+		p.Name[i] = Comp{T: tw.TParamsDigest, V: Blob{N: 32, S: rapid.Byte().Draw(t, "embeddedSeed")}}
 	}
 	if rapid.IntRange(0, 5).Draw(t, "padPacket") == 0 {
 		p = padPacket(t, p)
